@@ -68,7 +68,12 @@ def locate(roots, envs, values, nl, lb, pick="last"):
     for t in T.topo(big):
         if t.op != "var" and t.w >= lb:
             k = sigs.get(tuple(m[t.id] for m in memos))
-            if k is not None and (pick == "last" or found[k] is None):
+            if k is None:
+                continue
+            # a node of exactly the limb width is preferred to a wider one with the same sampled values
+            # (e.g. the 65-bit sum whose carry bit happens to be 0 on every sample)
+            cur = found[k]
+            if cur is None or (cur.w != lb and t.w == lb) or (pick == "last" and (t.w == lb or cur.w != lb)):
                 found[k] = t
     return None if any(f is None for f in found) else found
 
